@@ -675,10 +675,10 @@ func (c *Ctx) deliveryRules(r4, r5 string) {
 	// failer part
 	if w.Failer != nil {
 		construct := fmt.Sprintf("%s: table emptied after answering", fname(w.Failer))
-		var reset *ssa.Store
-		for _, u := range usesOfKind(p.uses(r.FInflight), "store") {
+		var reset ssa.Instruction
+		for _, u := range usesOfKind(p.uses(r.FInflight), "store", "clear") {
 			if !c.isConstruction(u) && p.inCone(w.Failer, u.At) {
-				reset = u.At.(*ssa.Store)
+				reset = u.At
 			}
 		}
 		var rng ssa.Instruction
@@ -687,7 +687,7 @@ func (c *Ctx) deliveryRules(r4, r5 string) {
 		}
 		if reset == nil || rng == nil {
 			c.bad(r5, construct, p.pos(w.Failer.Pos()), "entries answered by the failer stay registered: the next loss or exit answers calls that have already returned")
-		} else if ret := reachFrom(rng, isReturn, func(in ssa.Instruction) bool { return in == ssa.Instruction(reset) }); ret != nil && ret.Parent() == w.Failer {
+		} else if ret := reachFrom(rng, isReturn, func(in ssa.Instruction) bool { return in == reset }); ret != nil && ret.Parent() == w.Failer {
 			c.bad(r5, construct, c.ipos(ret), "a path returns without emptying the table")
 		} else {
 			c.ok(r5, construct, c.ipos(reset), "table replaced on every path")
